@@ -197,7 +197,15 @@ class Ctx:
     # ---------------------------------------------------------------- model execution
     def driver(self, fam, lines, timeout=1200):
         exe = os.path.join(BUILD, "bin", fam)
-        p = subprocess.run([exe], input="\n".join(lines) + "\n", capture_output=True, text=True, timeout=timeout)
+        def _big_stack():
+            # extracted models recurse structurally (non-tail) over long inputs
+            import resource
+            try:
+                resource.setrlimit(resource.RLIMIT_STACK, (resource.RLIM_INFINITY, resource.RLIM_INFINITY))
+            except (ValueError, OSError):
+                pass
+        p = subprocess.run([exe], input="\n".join(lines) + "\n", capture_output=True, text=True, timeout=timeout,
+                           preexec_fn=_big_stack)
         if p.returncode != 0:
             raise RuntimeError(f"driver {fam} failed: {p.stderr[-500:]}")
         out = p.stdout.split("\n")
